@@ -1,5 +1,5 @@
 (* C07 — binary STL round trip and size law.  Statements only; proofs live in Formats/StlProofs.v. *)
-From PF Require Import Base.Bytes Formats.Stl Formats.StlProofs Check.C07 Formats.StlBigProofs.
+From PF Require Import Base.Bytes Formats.Stl Formats.StlProofs.
 Open Scope N_scope.
 
 (* 84 + 50*n bytes for n triangles, for every n including 0 *)
@@ -128,7 +128,7 @@ Print Assumptions stl_big_file_model.
 (* the model's bytes for a mesh whose index buffer and vertex list are given by functions *)
 Theorem stl_big_mesh_model : forall (g : N -> N) (f fn : N -> vec) nv n part,
   (forall j, g j < N.of_nat nv) ->
-  write_mesh (map (fun j => N.to_nat (g j)) (iota (3 * n) 0) ++ part) (Some (map f (iota nv 0))) (map fn (iota n 0))
+  write_mesh (map (fun j => N.to_nat (g j)) (iotaN (3 * n) 0) ++ part) (Some (map f (iotaN nv 0))) (map fn (iotaN n 0))
   = Some (write zero_hdr (tris_from n 0 fn (fun j => f (g j)))).
 Proof. exact big_mesh_model. Qed.
 Print Assumptions stl_big_mesh_model.
@@ -145,8 +145,10 @@ Proof. vm_compute. split; reflexivity. Qed.
 (* non-vacuity of the chunk theorem: 5 records, chunk size 2 (three iterations, the last one partial), trailing
    bytes; and a file cut inside the last chunk is rejected by both readers *)
 Example stl_chunk_example :
-  let ts := synth_tris 7 false 5 in
-  let bytes := write (synth_hdr 7) ts ++ [1; 2; 3] in
-  read_chunked 2 bytes = Some (synth_hdr 7, ts) /\ read bytes = Some (synth_hdr 7, ts) /\
+  let hdr := repeat 7 80 in
+  let ts := map (fun i => {| tn := (i, 0, 1); ta := (i + 1, 2, 3); tb := (4, i * 1000, 5); tc := (6, 7, 4294967295 - i);
+                             tattr := i * 9 |}) (iotaN 5 0) in
+  let bytes := write hdr ts ++ [1; 2; 3] in
+  read_chunked 2 bytes = Some (hdr, ts) /\ read bytes = Some (hdr, ts) /\
   read_chunked 2 (firstn 300 bytes) = None /\ read (firstn 300 bytes) = None.
 Proof. vm_compute. repeat split; reflexivity. Qed.
